@@ -97,7 +97,17 @@ def run(chk: Check) -> None:
             try:
                 t = function_term(g)
             except OutsideFragment as e:
-                chk.ob("R06.2", key, False, g.loc(), "outside the fragment: %s" % e, undecided=True)
+                # undecided — unless the function never tests a section's own extent against the
+                # query at all (no scan helper of the right kind, no same-named lookup of a child):
+                # then the sections it returns were chosen by something else
+                scans = [c_ for c_ in ast.walk(g.node) if isinstance(c_, ast.Call) and (
+                    (isinstance(c_.func, ast.Name) and helper_kind(repo, c_.func.id)["sel"] == s) or
+                    (isinstance(c_.func, ast.Attribute) and c_.func.attr == "sections_" + s))]
+                chk.ob("R06.2", key, False, g.loc(),
+                       ("outside the fragment: %s" % e) if scans else
+                       "%s never compares the extent of a section with the query (no nodes_%s scan, no "
+                       "sections_%s of a child): it selects sections by something else (%s)" % (key, s, s, e),
+                       2, undecided=bool(scans))
                 continue
             param = g.param_names()[1]
             ok = False
